@@ -15,6 +15,7 @@ from ..program import AnalysisError, ClassInfo, FunctionInfo, fn_nodes, norm
 from ..cfg import cfg_of
 from ..fold import FuncVal, Inst, is_unknown
 from ..spec import tables as T
+from .common import inconclusive_on_error as _ioe
 from .common import resolve_all, can_reach_exit, const_value, is_const, names_in, succ_by_label
 from .c05 import _resolve_local
 
@@ -177,6 +178,7 @@ def r11_3(ctx) -> None:
     ctx.check(set(m) == {"k"} and rd == {"k"}, "R11.3", ob.methods["import_from_dict"], None, "OctKey members", f"oct export {sorted(m)} / import {sorted(rd)} differ from {{k}}", "k", construct="oct members")
 
 
+@_ioe
 def _vdk_registry_folded(ctx, nb, vr) -> Optional[List[str]]:
     """Fold validate_dict_key_registry on a probe registry (a required str member, an optional int member) and probe JWKs: it raises ValueError
     exactly when the required member is missing or a PRESENT member - whatever its value: null, empty, zero - fails its validator; members the
@@ -676,6 +678,39 @@ def r11_12(ctx) -> None:
     ctx.count("R11.12", n, 26, "option forwarding call sites")
 
 
+def r11_22(ctx, rule: str = "R11.22") -> None:
+    """R11.22  a lazily built JWK view is validated BEFORE it is stored: in BaseKey.dict_value every store into `self._dict_value` (update / item
+    assignment / re-binding) is dominated by validate_dict_key of what is stored.  A view that is stored first and validated afterwards stays in the key
+    when validation fails: the next access takes the early return and hands out a JWK the library itself refuses (and every other call sharing the key
+    sees it)."""
+    eng = ctx.eng
+    bk = eng.prog.cls("rfc7517.models:BaseKey")
+    dv = bk.methods.get("dict_value")
+    vd = bk.methods.get("validate_dict_key")
+    if dv is None or vd is None:
+        raise AnalysisError("BaseKey.dict_value / validate_dict_key vanished")
+    cfg = cfg_of(dv)
+    sn = dv.self_name
+    vnodes = [cfg.node_of(s.node) for s in eng.cg.calls_in(dv) if isinstance(s.node, ast.Call) and (vd in s.callees or s.attr == "validate_dict_key")]
+    vnodes = [v for v in vnodes if v is not None]
+    stores = []
+    for n in cfg.nodes:
+        if n.kind != "stmt" or n.ast is None:
+            continue
+        for x in ast.walk(n.ast):
+            if isinstance(x, ast.Call) and isinstance(x.func, ast.Attribute) and x.func.attr in ("update", "setdefault", "__setitem__") and norm(x.func.value) == f"{sn}._dict_value":
+                stores.append((n, x))
+            elif isinstance(x, (ast.Assign, ast.AugAssign)):
+                for t_ in (x.targets if isinstance(x, ast.Assign) else [x.target]):
+                    if (isinstance(t_, ast.Subscript) and norm(t_.value) == f"{sn}._dict_value") or norm(t_) == f"{sn}._dict_value":
+                        stores.append((n, x))
+    ctx.count(rule, len(stores), 1, "stores into the lazily built JWK view")
+    for n, x in stores:
+        ok = bool(vnodes) and cfg.must_pass(cfg.entry, n, [v for v in vnodes if v is not n])
+        ctx.check(ok, rule, dv, x, f"{dv.short} :: {norm(x)[:50]}", "the lazily built JWK view is stored in the key before it was validated: when validation fails the invalid view stays and "
+                  "every later access (or another call sharing the key) gets it without error", "validate_dict_key(data) dominates the store", construct="dict_value store before validation")
+
+
 def r11_8(ctx) -> None:
     eng = ctx.eng
     bk = eng.prog.cls("rfc7517.models:BaseKey")
@@ -793,6 +828,9 @@ def r11_19(ctx) -> None:
 
 
 def run(ctx) -> None:
+    ctx.guard(r11_22)
+    from .c15 import r15_3 as _r15_3
+    ctx.guard_as("R11.21", _r15_3)  # "wrong member types are refused": the value validators accept exactly their type
     from .common import member_crossing
     ctx.guard(member_crossing, "R11.20", None, True)  # named members are filled from the value of the same name (generic crossing rule, rules/common.py)
     from .common import forwarding_discipline
